@@ -14,6 +14,9 @@ import (
 	"golang.org/x/tools/go/ssa"
 )
 
+var curIns ssa.Instruction
+var brStat = map[string]int{}
+
 type goPanic struct {
 	val Value
 	msg string
@@ -51,6 +54,7 @@ type Interp struct {
 	epoch     int32
 	undo      []undoRec
 	steps     int64
+	totalSteps int64
 	maxSteps  int64
 	initMode  bool
 	depth     int
@@ -67,13 +71,14 @@ type Interp struct {
 	trace     bool
 	initDone  map[*ssa.Package]bool
 	nondetN   int
+	tape      []TapeEntry
 }
 
 type intrinsic func(in *Interp, fr *frame, call *ssa.CallCommon, args []Value) Value
 
 func NewInterp(prog *ssa.Program, ex *Explorer) *Interp {
 	in := &Interp{prog: prog, globals: map[*ssa.Global]*Cell{}, fnInfos: map[*ssa.Function]*fnInfo{},
-		consts: map[*ssa.Const]Value{}, ex: ex, maxSteps: 50_000_000, unwind: 4200,
+		consts: map[*ssa.Const]Value{}, ex: ex, maxSteps: 20_000_000, unwind: 4200,
 		funcsUsed: map[string]bool{}, stubsUsed: map[string]bool{}, initDone: map[*ssa.Package]bool{}}
 	in.trace = os.Getenv("GOSYM_TRACE") != ""
 	in.intrinsics = makeIntrinsics()
@@ -402,6 +407,7 @@ func (in *Interp) runBlocks(fr *frame, start *ssa.BasicBlock) Value {
 				panic(pathAbort{"budget", "instruction budget exceeded"})
 			}
 			ins := b.Instrs[i]
+			curIns = ins
 			if in.trace {
 				fmt.Fprintf(os.Stderr, "%*s%s: %v\n", in.depth, "", fr.fn.Name(), ins)
 			}
